@@ -117,6 +117,19 @@ class _Mixin:
 
     async def teardown(self) -> None:
         await self.behaviour.at(self, "teardown", "pre")
+        ex = self.behaviour.plan["exit"]
+        if ex["kind"] == "conn" and ex["point"] == "teardown" and ex["pos"] == "base" and getattr(self, "transport", None) is not None and not self.behaviour.exited:
+            # the expected error comes from inside the base-class teardown: closing the transport fails (a transport whose
+            # close() reports the broken connection)
+            self.behaviour.exited = True
+            self.behaviour.world.rec.rec("exit", ekind="conn", point="teardown", pos="base")
+            real_close = self.transport.close
+
+            async def failing_close() -> None:
+                await real_close()
+                raise ConnectionResetError(104, "Connection reset by peer")
+
+            self.transport.close = failing_close  # type: ignore[method-assign]
         await super().teardown()  # type: ignore[misc]
         await self.behaviour.at(self, "teardown", "post")
 
@@ -138,7 +151,7 @@ class SimUDSScanner(_Mixin, UDSScanner):
 
 EXIT_KINDS = ["return", "exit0", "exit1", "exit3", "exittext", "conn", "uds", "runtime", "kbd"]
 POINTS = [("setup", "pre"), ("setup", "post"), ("main", "pre"), ("teardown", "pre"), ("teardown", "post")]
-HOOKS = ["absent", "ok", "fail", "stderr"]
+HOOKS = ["absent", "ok", "fail", "stderr", "slow"]
 
 
 def expected_codes(kind: str, cmdkind: str) -> set[int]:
@@ -164,7 +177,7 @@ class C15(Check):
     level = "fault_enumeration"
     rule = (
         "stratified grid: exit kind {return, sys.exit(0|1|3|text), ConnectionError, UDSException, RuntimeError, KeyboardInterrupt} x "
-        "lifecycle point {setup before/after the base-class setup, main, teardown before/after the base-class teardown} x command kind "
+        "lifecycle point {setup before/after the base-class setup, main, teardown before/after the base-class teardown, ConnectionError also from inside it (closing the transport fails)} x command kind "
         "{plain script, scanner, UDS scanner} (every cell hit first), then seeded draws of {artifacts, database, lock, hooks} on/off, hook outcome "
         "{absent, ok, exit 3, stderr}, log-consumer lag, database latency and a SIGINT at a virtual instant delivered through asyncio.Runner's handler. "
         "non-trivial = the run did not end by a plain return; distinct = (command kind, exit kind, point, resources, hook outcomes, where the SIGINT landed)."
@@ -208,6 +221,8 @@ class C15(Check):
             plan["kind"] = rng.choice(["script", "scanner", "uds"])
             pt = rng.choice(POINTS)
             plan["exit"] = {"kind": rng.choice(EXIT_KINDS + ["return"] * 3), "point": pt[0], "pos": pt[1]}
+            if plan["kind"] != "script" and rng.random() < 0.06:
+                plan["exit"] = {"kind": "conn", "point": "teardown", "pos": "base"}
             r_ = rng.random()
             plan["sigint"] = round(rng.uniform(0.0, 1.4 if plan["kind"] == "uds" else 0.25), 4) if r_ < 0.2 else None
             plan["sigint_frac"] = round(rng.uniform(0.0, 1.15), 4) if 0.2 <= r_ < 0.6 else None
@@ -250,9 +265,27 @@ class C15(Check):
     def run(self, plan: dict[str, Any]) -> dict[str, Any]:
         res = new_result()
         world = CmdWorld(seed=plan["net_seed"])
+        import subprocess
+
+        import gallia.command.base as base_mod
+
+        real_run = base_mod.run
+
+        def hook_run(script: Any, *a: Any, **kw: Any) -> Any:
+            # seam: the hook subprocess.  A hook marked SLOWHOOK takes 1000 s (of the hook's own time): a caller that
+            # imposes a shorter limit gets TimeoutExpired, as subprocess.run would raise it
+            if isinstance(script, str) and "SLOWHOOK" in script:
+                bump(res["faults"], "hook_that_runs_for_1000_s")
+                if kw.get("timeout") is not None and kw["timeout"] < 1000.0:
+                    raise subprocess.TimeoutExpired(script, kw["timeout"])
+            kw.pop("timeout", None)
+            return real_run(script, *a, **kw)
+
+        base_mod.run = hook_run  # type: ignore[assignment]
         try:
             self._run(plan, world, res)
         finally:
+            base_mod.run = real_run  # type: ignore[assignment]
             world.uninstall()
             world.destroy()
         return res
@@ -289,6 +322,8 @@ class C15(Check):
                 script += "; exit 3"
             if mode == "stderr":
                 script += "; echo oops >&2; echo out"
+            if mode == "slow":
+                script += "; : SLOWHOOK"
             return script
 
         kw["pre_hook"] = hook("pre", plan["pre_hook"])
